@@ -237,6 +237,26 @@ fn compound(db: &Db, rng: &mut Rng, depth: u32) -> String {
     }
 }
 
+/// true when every identifier of the query is a database name with an exact (rational) value:
+/// such a query is built from exact literals, exact units and integer powers only, so a float
+/// anywhere in the reply is a loss of exactness (the registry stores a few float constants).
+fn exact_text(db: &Db, text: &str) -> bool {
+    let mut it = TokenIterator::new(text);
+    loop {
+        match it.next() {
+            Some(Token::Eof) | None => return true,
+            Some(Token::Ident(s)) => {
+                if s == "zork" { continue; }
+                match db.ctx.registry.units.get(&s).map(|n| n.value.clone()).or_else(|| db.lookup(&s).map(|n| n.value)) {
+                    Some(Numeric::Rational(_)) => {}
+                    _ => return false,
+                }
+            }
+            _ => {}
+        }
+    }
+}
+
 pub fn run_c03(o: &Opts) -> i32 {
     let db = Db::new();
     let mut rng = Rng::new(o.seed);
@@ -256,7 +276,7 @@ pub fn run_c03(o: &Opts) -> i32 {
             let c = coef_pos(&mut rng);
             let text = format!("{} {} -> {}", c, a, b);
             let src = eval_number(&db.ctx, &format!("{} {}", c, a));
-            emit(&text, json!({"kind": "pair", "v": src.as_ref().map(|s| rat(&s.value)), "t": rat(&vb.value), "same": va.unit == vb.unit, "tdim": fmt_dim(&vb.unit)}));
+            emit(&text, json!({"kind": "pair", "v": src.as_ref().map(|s| rat(&s.value)), "t": rat(&vb.value), "same": va.unit == vb.unit, "tdim": fmt_dim(&vb.unit), "exact_inputs": exact_text(&db, &text)}));
             total += 1; conform += 1;
         } }
     }
@@ -272,13 +292,15 @@ pub fn run_c03(o: &Opts) -> i32 {
         };
         // make conformable often: reuse the source's own unit expression as the target
         let tgt = if !inline && rng.chance(1, 3) { format!("{} ({})", 2 + rng.below(7), src) } else { tgt };
+        // zero-valued targets: conformable -> "division by zero", otherwise still a conformance error
+        let tgt = if !inline && rng.chance(1, 25) { format!("0 ({})", tgt) } else { tgt };
         let text = format!("{} -> {}", src, tgt);
         if text.chars().count() > 450 { continue; }
         let tgt_expr = if inline { tgt.splitn(2, '=').nth(1).unwrap().to_string() } else { tgt.clone() };
         let (sv, tv) = (eval_number(&db.ctx, &src), eval_number(&db.ctx, &tgt_expr));
         let a = match (&sv, &tv) {
             (Some(s), Some(t)) => { if s.unit == t.unit { conform += 1; }
-                json!({"kind": "compound", "v": rat(&s.value), "t": rat(&t.value), "same": s.unit == t.unit, "tdim": fmt_dim(&t.unit),
+                json!({"kind": "compound", "v": rat(&s.value), "t": rat(&t.value), "same": s.unit == t.unit, "tdim": fmt_dim(&t.unit), "exact_inputs": exact_text(&db, &text),
                        "recip": (s * t).map(|p| p.unit.is_dimensionless()).unwrap_or(false)}) }
             _ => json!({"kind": "compound", "v": null, "t": null}),
         };
